@@ -1,5 +1,7 @@
 fn main() {
 	println!("cargo:rustc-check-cfg=cfg(nightly)");
+	println!("cargo:rustc-check-cfg=cfg(kani)");
+	println!("cargo:rustc-check-cfg=cfg(parity_scale_codec_verif)");
 	if rustversion::cfg!(nightly) {
 		println!("cargo:rustc-cfg=nightly");
 	}
